@@ -100,6 +100,8 @@ ROUND3 = {
 
 # additions of round 5 (preemption points, hook H8)
 ROUND5 = {
+ 'C01': ' Round 5: objects whose id member occurs twice (same or different representable values) must be answered as invalid requests, not dropped as notifications (found defect 29).',
+ 'C02': ' Round 5: batch entries whose id member occurs twice are invalid entries with a recoverable id (defect 29).',
  'C07': ' Round 5: a hand-written WebSocket peer sends the header (and one kilobyte) of a single frame announcing 2^28+1 bytes or more: the server must not close the connection over it (found defect 28).',
  'C08': ' Round 5: subscribe calls over WebSocket - the accepting response carries a scripted string subscription id sized around the limit, the rejecting response the handler\'s error object with data sized around the limit (found defect 26); a subscription\'s notifications are not replies and are not measured.',
  'C12': ' Round 5: a reply that answers one id twice must fail the call or report that entry as an error - the client must not pick one of the answers (found defect 25; judged when one reply message alone ever addressed the id).',
